@@ -27,22 +27,36 @@ K = {"set_d": 0, "set_2dl": 0, "neg": 0, "abs": 0, "neg_eq": 0, "abs_eq": 0,
      "sqrt": 1, "sqrt_eq": 1, "mul_d": 1, "mul_eq_d": 1, "div_d": 1, "div_eq_d": 1,
      "add": 2, "add_eq": 2, "sub": 2, "sub_eq": 2,
      # complex: error measured in modulus
-     "cadd": 3, "csub": 3, "cmul_e": 2, "cdiv_e": 2,
-     "cmul_d": 2, "cdiv_d": 2, "cinv": 8, "cinv_eq": 8, "cdiv": 12, "cmod": 4, "csmod": 4, "cset_d": 0}
+     "cadd": 2, "csub": 2, "cmul_e": 1, "cdiv_e": 1,
+     "cmul_d": 1, "cdiv_d": 1, "cinv": 6, "cinv_eq": 6, "cdiv": 9, "cmod": 4, "csmod": 4, "cset_d": 0}
 # complex operations with a theorem in squared modulus: |res - exact|^2 <= K2 * 2^-106 * |exact|^2
-K2 = {"cmul": 19, "cmul_eq": 19, "csqr": 11, "csqr_eq": 11}
+K2 = {"cmul": 19, "cmul_eq": 19, "csqr": 11, "csqr_eq": 11, "cdiv": 72, "cmul_x": 19}
 PROVED = {"mul": "C12_mul_rel", "mul_eq": "C12_mul_rel", "sqr": "C12_sqr_rel", "sqr_eq": "C12_sqr_rel", "div": "C12_div_rel",
           "div_eq": "C12_div_rel", "inv": "C12_inv_rel", "inv_eq": "C12_inv_rel", "sqrt": "C12_sqrt_rel", "sqrt_eq": "C12_sqrt_rel",
           "add": "C12_add_rel (1 ulp when |e1-e2| <= 53)", "add_eq": "C12_add_eq_rel", "sub": "C12_sub_rel", "sub_eq": "C12_sub_rel",
           "set_d": "C12_conv_double", "cmod": "C12_cmod_rel", "csmod": "C12_csmod_rel", "cmul": "C12_cmul_rel (k^2 = 19)",
           "cmul_eq": "C12_cmul_rel (k^2 = 19)", "csqr": "C12_csqr_rel (k^2 = 11)", "csqr_eq": "C12_csqr_rel (k^2 = 11)",
           "pow_si": "C12_pow_si_ulps (k = i + 1, 2|i| + 1 for i < 0)", "pow_eq_si": "C12_pow_si_ulps",
+          "cpow_si": "C12_cpow_si_ulps (4.36 (i+1), 10.37 (|i|+1) for i < 0)", "cpow_eq_si": "C12_cpow_si_ulps",
           "get_d": "C12_get_d_partial (correctly rounded)", "cmp": "C12_cmp_correct", "lt": "C12_order_correct", "le": "C12_order_correct",
-          "gt": "C12_order_correct", "ge": "C12_order_correct", "mul_2exp": "C12_scale_2exp_partial", "div_2exp": "C12_scale_2exp_partial"}
+          "gt": "C12_order_correct", "ge": "C12_order_correct",
+          "mul_2exp": "C12_scale_2exp (every unsigned long i)", "div_2exp": "C12_scale_2exp (every unsigned long i)",
+          "mul_eq_2exp": "C12_scale_2exp", "div_eq_2exp": "C12_scale_2exp", "set_2dl": "C12_set_2dl_full",
+          "mul_d": "C12_mul_d_rel (repaired code)", "mul_eq_d": "C12_mul_d_rel (repaired code)",
+          "div_d": "C12_div_d_rel (repaired code)", "div_eq_d": "C12_div_d_rel (repaired code)",
+          "cmul_e": "C12_cmul_e_rel (1 ulp per component)", "cdiv_e": "C12_cdiv_e_rel (1 ulp per component)",
+          "cmul_d": "C12_cmul_d_rel (repaired code, 1 ulp per component)", "cdiv_d": "C12_cdiv_d_rel (repaired code, 1 ulp per component)"}
+PROVED.update({"cadd": "C12_cadd_rel (2 ulps in modulus)", "csub": "C12_csub_rel (2 ulps in modulus)", "cadd_eq": "C12_cadd_eq_rel",
+               "cinv": "C12_cinv_mod (6 ulps in modulus)", "cinv_eq": "C12_cinv_mod", "cdiv": "C12_cdiv_rel (k^2 = 72)", "cdiv_eq": "C12_cdiv_rel (k^2 = 72)",
+               "cmul_x": "C12_cmul_x_rel (repaired code, k^2 = 19)", "cmul_eq_x": "C12_cmul_x_rel (repaired code, k^2 = 19)"})
+PROVED["get_d"] = "C12_get_d_full (correctly rounded below 2^1024, infinity above, every exponent of long)"
 
 
 def k_pow(i): return (i if i >= 0 else 2 * -i) + 1     # C12_pow_si_ulps: (1+u)^k - 1 <= (k+1) u, k = i or 2|i|
-def k_cpow(i): return 10 * abs(i) + 10       # cdpe_pow_si (no theorem)
+def k_cpow(i):
+    """C12_cpow_si_ulps: 4.36 (i + 1) ulps for i >= 0, 10.37 (|i| + 1) for i < 0 (rounded up to an integer)"""
+    n = abs(i) + 1
+    return -((-436 * n) // 100) if i >= 0 else -((-1037 * n) // 100)
 
 
 def k_addsub(a):
@@ -69,7 +83,7 @@ ALIAS = {"d": "set_d", "2dl": "set_2dl", "cd": "cset_d", "cx": "cset_d", "cset_x
          "cneg_eq": "cneg", "ccon_eq": "ccon", "crot_eq": "crot", "cflip_eq": "cflip",
          "add_eq_d": "add_d", "sub_eq_d": "sub_d", "c2dl": "cset_2dl",
          "set": "get_2dl", "ce": "cget_e", "cset_e": "cget_e", "cset": "cget_e"}
-K.update({"add_d": 2, "sub_d": 2, "cmul_x": 6})
+K.update({"add_d": 2, "sub_d": 2, "cmul_x": 5})      # cmul_x: K2 (k^2 = 19) is what the predicate uses
 
 # protocol op -> public function of include/mps/mt.h it calls in harness/c12_dpe.c
 COVER = {"set_d": "rdpe_set_d", "set_2dl": "rdpe_set_2dl", "get_d": "rdpe_get_d", "d": "rdpe_d", "2dl": "rdpe_2dl",
@@ -411,6 +425,18 @@ def evaluate(op, a, out):
     return ("skip", "no predicate for op")
 
 
+def mant_op_class(mants, dvs, div):
+    """*_d / *_x variants as they are: does a double operation  mantissa * d  (mantissa / d) leave the normal range of double?"""
+    for mh in mants:
+        m = dec(int(mh, 16))
+        if m is None or m[0] == 0: continue
+        for dv in dvs:
+            if dv[0] == 0: continue
+            pv = x_div((m[0], 1, m[1]), dv) if div else x_mul((m[0], 1, m[1]), dv)
+            if x_exp(pv) < -1021 or x_exp(pv) > 1024: return "mantissa-op-leaves-double-range"
+    return None
+
+
 def evaluate_complex(op, a, out):
     def cval(t):
         r, i = rval(int(t[0], 16), int(t[1])), rval(int(t[2], 16), int(t[3]))
@@ -424,6 +450,7 @@ def evaluate_complex(op, a, out):
     exps = [int(a[1]), int(a[3])]
     real_out = op in ("cmod", "csmod")
     k = None
+    dclass = None        # *_d / *_x forms: set when the double operation mantissa (*|/) d leaves the normal range of double
     if op in CUN:
         rest = a[4:]
         base = op.replace("_eq", "")
@@ -459,14 +486,13 @@ def evaluate_complex(op, a, out):
         if op == "cdiv_d" and dv[0] == 0: return ("skip", "division by zero")
         f = x_mul if op == "cmul_d" else x_div
         exact = (f(z[0], dv), f(z[1], dv)); k = K[op]
-        if d[0] and not (-900 < x_exp(dv) < 900): return ("skip", "mantissa op leaves the normal double range (see mul_d)")
+        dclass = mant_op_class([a[0], a[2]], [dv], op == "cdiv_d")
     elif op == "cmul_x":
         ds = [dec(int(a[4], 16)), dec(int(a[5], 16))]
         if ds[0] is None or ds[1] is None: return ("skip", "non-finite")
         w = tuple((d[0], 1, d[1]) if d[0] else (0, 1, 0) for d in ds)
-        if any(d[0] and not (-900 < x_exp(v) < 900) for d, v in zip(ds, w)):
-            return ("skip", "mantissa op leaves the normal double range (see mul_d)")
         exact = cmul(z, w); k = K[op]
+        dclass = mant_op_class([a[0], a[2]], list(w), False)
     elif op == "cpow_si":
         i = int(a[4])
         if abs(i) > 4096: return ("skip", "power with |i| > 4096: accuracy not evaluated")
@@ -484,14 +510,15 @@ def evaluate_complex(op, a, out):
     else:
         for j in (0, 1):
             om, oe = int(out[2 * j], 16), int(out[2 * j + 1])
-            if dec(om) is None: return ("norm", "nan-or-inf")
+            if dec(om) is None: return ("rel", dclass) if dclass else ("norm", "nan-or-inf")
             if not normalised(om, oe):
                 return ("norm", "zero-with-exponent" if sign_of(om) == 0 else "not-normalised")
     # accuracy only where no intermediate can leave the exponent range (saturation of composite
     # complex operations is not specified by the property)
     lim = 1 << 58
-    if op in K2 or op in ("cmod", "csmod"): lim = 1 << 60      # csmall of C12_cmul_rel, C12_csqr_rel, C12_cmod_rel
-    if op == "cpow_si": lim = (1 << 58) // (abs(int(a[4])) + 1)
+    if op in K2 or op in ("cmod", "csmod", "cinv", "cinv_eq", "cadd", "csub", "cmul_d", "cdiv_d"):
+        lim = 1 << 60      # csmall of C12_cmul_rel, C12_csqr_rel, C12_cmod_rel, C12_cinv_mod, C12_cdiv_rel (cadd/csub/c*_d: wider)
+    if op == "cpow_si": lim = ((1 << 59) // max(1, abs(int(a[4]))) - 2200) // 3      # range hypothesis of C12_cpow_si_rel
     if any(abs(e) > lim for e in exps): return ("skip", "complex op with extreme exponents: accuracy not evaluated")
     if real_out:
         res = rval(int(out[0], 16), int(out[1]))
@@ -499,7 +526,7 @@ def evaluate_complex(op, a, out):
             return None if sqrt_ok(res, s, k) else ("rel", "in-range")
         return None if rel_ok(res, exact, k) else ("rel", "in-range")
     r1 = rval(int(out[0], 16), int(out[1])); r2 = rval(int(out[2], 16), int(out[3]))
-    return None if crel_ok(r1, r2, exact[0], exact[1], k, K2.get(op)) else ("rel", "in-range")
+    return None if crel_ok(r1, r2, exact[0], exact[1], k, K2.get(op)) else ("rel", dclass or "in-range")
 
 
 # ------------------------------------------------------------------ generators
@@ -804,16 +831,67 @@ def targeted_cases():
         out.append("%s %s %d" % (op, fc(((T, 1), (A, 0))), LMIN))
         for i in [0, 1, -1, 2, -2]:
             out.append("%s %s %d" % (op, fc(((T, 1), (A | NEG, 0))), i))
+    # C12_cpow_si_rel: bit patterns of the counter, zero components (pure real / imaginary bases), cancellation (1 + i), the range limit
+    for op in ["cpow_si", "cpow_eq_si"]:
+        for i in [0, 1, -1, 2, -2, 3, -3, 5, 7, 8, -8, 16, 31, -31, 64, 100, -100, 255]:
+            lim = ((1 << 59) // max(1, abs(i)) - 2200) // 3
+            for z in [((H, 1), (H, 1)), ((H, 1), (H | NEG, 1)), ((T, 2), (0, 0)), ((0, 0), (A, 1)), ((A, 0), (B | NEG, 0)), ((T | NEG, 3), (A, -2)),
+                      ((B, lim), (T, lim - 1)), ((A, -lim), (H | NEG, -lim + 3))]:
+                out.append("%s %s %d" % (op, fc(z), i))
     # C12_cmul_rel / C12_csqr_rel / C12_cmod_rel: cancellation in the real part, zero components, the limit 2^60
     for e in [0, 3, -1000, 1 << 60, -(1 << 60)]:
         for (a, b, c, d) in [(H, H, H, H), (A, B, B, A), (T, A, A, T), (H, 0, 0, H), (0, T, T, 0), (A, A | NEG, A, A)]:
             z = ((a, e if a & ~NEG else 0), (b, e if b & ~NEG else 0)); w = ((c, e if c & ~NEG else 0), (d, e if d & ~NEG else 0))
             out.append("cmul %s %s" % (fc(z), fc(w))); out.append("cmul_eq %s %s" % (fc(z), fc(w)))
             out.append("csqr %s" % fc(z)); out.append("csqr_eq %s" % fc(z)); out.append("cmod %s" % fc(z)); out.append("csmod %s" % fc(z))
+    # C12_cinv_rel / C12_cdiv_rel / C12_cadd_rel / C12_csub_rel: zero components, equal moduli, the limits 2^60
+    for e in [0, 7, -900, 1 << 60, -(1 << 60)]:
+        for (a, b) in [(H, H), (A, B | NEG), (T, 0), (0, T | NEG), (A, A), (B | NEG, H)]:
+            z = ((a, e if a & ~NEG else 0), (b, e if b & ~NEG else 0))
+            out.append("cinv %s" % fc(z)); out.append("cinv_eq %s" % fc(z))
+            for (c, d) in [(H, 0), (0, A), (T, T | NEG), (B, A)]:
+                w = ((c, e if c & ~NEG else 0), (d, e if d & ~NEG else 0))
+                out.append("cdiv %s %s" % (fc(w), fc(z))); out.append("cdiv_eq %s %s" % (fc(w), fc(z)))
+                out.append("cadd %s %s" % (fc(w), fc(z))); out.append("csub %s %s" % (fc(w), fc(z))); out.append("cadd_eq %s %s" % (fc(w), fc(z)))
     # C12_get_d_partial: ties and borders of the subnormal range, C12_get_d_clamped
     for e in [-1021, -1022, -1023, -1073, -1074, -1075, -2200, -2201, -4096, -4097, 1024, 1025, 4096, 4097]:
         for m in [H, A, B, T, H | NEG]:
             out.append("get_d %s" % fr((m, e)))
+    # ---- case splits of the round-6 proofs ----
+    # C12_mul_d_rel / C12_div_d_rel / C12_cmul_d_rel / C12_cdiv_d_rel: d zero, subnormal, DBL_MIN, DBL_MAX; x zero; x at the range limits
+    DS = [0, NEG, 1, 0x000fffffffffffff, 0x0010000000000000, 0x0010000000000001, 0x3ff8000000000000, 0xc008000000000000,
+          0x7fe0000000000000, 0x7fefffffffffffff, 0x8000000000000001, 0xffefffffffffffff]
+    for d in DS:
+        for m, e in [(H, 0), (A, 3), (T | NEG, -7), (0, 0), (B, LMIN + 1074), (A | NEG, LMAX - 1026), (T, LMIN + 1025), (H, LMAX - 1075)]:
+            for op in WITH_D:
+                if op.startswith("div") and (d & ~NEG) == 0: continue
+                out.append("%s %s %016x" % (op, fr((m, e)), d))
+            for op in ["cmul_d", "cdiv_d", "cmul_eq_d", "cdiv_eq_d"]:
+                if op.startswith("cdiv") and (d & ~NEG) == 0: continue
+                out.append("%s %s %016x" % (op, fc(((m, e), (T, 2))), d)); out.append("%s %s %016x" % (op, fc(((A | NEG, -3), (m, e))), d))
+        for d2 in [0x3ff0000000000000, 0x0010000000000000, 0x7fe0000000000000, 1]:
+            out.append("cmul_x %s %016x %016x" % (fc(((T, 1), (A | NEG, 0))), d, d2)); out.append("cmul_eq_x %s %016x %016x" % (fc(((B, -2), (H, 3))), d2, d))
+    # C12_norm_set_esp_sat / C12_inv_saturates / C12_div_saturates / C12_mul_saturates: exponent results one step around the ends of long
+    for m in [H, A, T | NEG, B | NEG]:
+        for e in [LMIN, LMIN + 1, LMIN + 2, LMIN + 3, LMAX, LMAX - 1, LMAX - 2]:
+            out.append("inv %s" % fr((m, e))); out.append("inv_eq %s" % fr((m, e)))
+        for m2 in [H, A | NEG, T]:
+            for ea, eb in [(LMAX, -1), (LMAX, 0), (LMAX - 1, -1), (LMAX - 1, -2), (LMAX, 1), (LMIN, 1), (LMIN, 0), (LMIN + 1, 1), (LMIN + 1, 2), (LMIN, -1),
+                           (0, LMIN), (-1, LMIN), (-2, LMIN), (1, LMAX), (0, LMAX), (-1, LMAX), (-2, LMAX)]:
+                out.append("div %s %s" % (fr((m, ea)), fr((m2, eb)))); out.append("div_eq %s %s" % (fr((m, ea)), fr((m2, eb))))
+                out.append("cdiv_e %s %s" % (fc(((m, ea), (T, ea))), fr((m2, eb)))); out.append("cmul_e %s %s" % (fc(((m, ea), (T, ea))), fr((m2, clampl(-eb)))))
+    # C12_scale_2exp: one, two and three rounds of the loop of rdpe_shift_esp, results exactly at / one beyond the ends of long
+    for op in WITH_UL:
+        for e, i in [(LMIN, (1 << 64) - 1), (LMIN + 1, (1 << 64) - 1), (LMIN, (1 << 64) - 2), (LMAX, (1 << 64) - 1), (LMAX - 1, (1 << 64) - 1),
+                     (-5, LMAX + 5), (-5, LMAX + 6), (-5, LMAX + 4), (5, LMAX + 6), (LMIN, LMAX), (LMIN, LMAX + 1), (LMIN, 2 * LMAX), (LMIN, 2 * LMAX + 1),
+                     (0, LMAX), (0, LMAX + 1), (-1, LMAX + 1), (-2, LMAX + 1), (7, 2 * LMAX), (-7, 2 * LMAX), (LMAX, 2 * LMAX + 1), (LMAX, 2 * LMAX)]:
+            for m in [T, A | NEG]:
+                out.append("%s %s %d" % (op, fr((m, e)), i))
+    # C12_set_2dl_full: l + frexp exponent at the ends of long, every kind of double
+    for d in [1, 0x000fffffffffffff, 0x0010000000000000, 0x3fe0000000000000, 0x3ff0000000000000, 0xbff8000000000000, 0x7fefffffffffffff, 0, NEG]:
+        for l in [LMAX, LMAX - 1, LMAX - 1023, LMAX - 1024, LMAX - 1025, LMAX - 1, LMIN, LMIN + 1, LMIN + 1072, LMIN + 1073, LMIN + 1074, LMIN + 1075, 0, -1, 1]:
+            out.append("set_2dl %016x %d" % (d, l)); out.append("2dl %016x %d" % (d, l))
+        out.append("cset_2dl %016x %d %016x %d" % (d, LMAX, d, LMIN))
     return out
 
 
@@ -914,7 +992,22 @@ def split_class(op, a):
             return "%s:i=%s" % (op.replace("_eq", ""), "LONG_MIN" if i == LMIN else "0" if i == 0 else "+-1" if abs(i) == 1 else
                                 "|i|<=64" if abs(i) <= 64 else "|i|<=4096" if abs(i) <= 4096 else "huge")
         if op == "get_d":
-            e = int(a[1]); return "get_d:" + ("e>1024" if e > 1024 else "normal" if e >= -1021 else "subnormal" if e >= -1074 else "below")
+            e = int(a[1]); return "get_d:" + ("e>1024" if e > 1024 else "normal" if e >= -1021 else "subnormal" if e >= -1074 else "below" if e >= -2200 else "below-2^-2200")
+        if op in WITH_D or op in ("cmul_d", "cdiv_d", "cmul_eq_d", "cdiv_eq_d"):
+            db = int(a[-1], 16); ex = (db >> 52) & 0x7ff
+            kind = "zero" if (db & ((1 << 63) - 1)) == 0 else "subnormal" if ex == 0 else "non-finite" if ex == 0x7ff else \
+                   "tiny(<2^-900)" if ex < 123 else "huge(>2^900)" if ex > 1923 else "moderate"
+            return "%s:d-%s" % (op.replace("_eq", ""), kind)
+        if op in WITH_UL:
+            i = int(a[2]); return "2exp:" + ("i<=LONG_MAX(1 round)" if i <= LMAX else "i<=2*LONG_MAX(2 rounds)" if i <= 2 * LMAX else "i>2*LONG_MAX(3 rounds)")
+        if op in ("set_2dl", "2dl"):
+            d = dec(int(a[0], 16))
+            if d is None or d[0] == 0: return "set_2dl:zero-or-non-finite"
+            s_ = int(a[1]) + x_exp((d[0], 1, d[1]))
+            return "set_2dl:" + ("saturates-high" if s_ > LMAX else "saturates-low" if s_ < LMIN else "in-range")
+        if base in ("inv", "sqr", "div") and op in UNARY + BINARY:
+            e1 = int(a[1]); s_ = -e1 if base == "inv" else 2 * e1 if base == "sqr" else e1 - int(a[3])
+            return "%s:exact-exponent-%s" % (base, "above-long" if s_ > LMAX else "below-long" if s_ < LMIN else "at-the-ends" if (s_ >= LMAX - 2 or s_ <= LMIN + 2) else "inside")
     except (ValueError, IndexError):
         pass
     return None
@@ -995,6 +1088,8 @@ WITNESSES = [
     ("sqrt 3fe0000000000000 9223372036854775807", "C12_saturates_refuted: sqrt(RDPE_MAX)"),
     ("cdiv_eq 3fe0000000000000 2 0000000000000000 0 3fe0000000000000 3 0000000000000000 0", "C12_cdpe_div_eq_unfixed_refuted: 2/4 = 1"),
     ("pow_si 3fe0000000000000 3 -9223372036854775808", "C12_pow_si_long_min_refuted: 4^LONG_MIN, negation wraps, loop does not end"),
+    ("mul_d 3fe8000000000000 0 0000000000000001", "C12_d_variants_unfixed_refuted: 0.75 * 2^-1074 (mantissa product rounds in the subnormals)"),
+    ("div_d 3fe8000000000000 0 0000000000000001", "C12_d_variants_unfixed_refuted: 0.75 / 2^-1074 (mantissa quotient overflows)"),
 ]
 
 
@@ -1061,7 +1156,11 @@ def run(ctx):
     coqchk = None
     if not ctx.quick():
         rc, o, e = vf.sh("timeout 900 coqchk -o -silent -Q . MPSV MPSV.Props.Properties_C12", cwd=vf.COQDIR, timeout=930)
-        coqchk = {"rc": rc, "summary": (o + e)[-2500:]}
+        txt = o + e
+        ax = []
+        mm = re.search(r"\* Axioms:\s*(.*?)(?:\n\s*\* |\Z)", txt, re.S)
+        if mm: ax = [a.strip() for a in mm.group(1).split("\n") if a.strip() and a.strip() != "<none>"]
+        coqchk = {"rc": rc, "axioms": ax, "summary": txt[-2500:]}
         if rc != 0:
             ctx.violation("proof:coqchk", "coqchk rejects the compiled library of Properties_C12", coqchk, no_input=True)
 
@@ -1102,7 +1201,7 @@ def run(ctx):
         "model_agrees_bit_exact": st["agree"], "model_disagrees": st["disagree"],
         "model_disagrees_but_matches_prefix_model": st["disagree_matches_old_model"],
         "refutation_witnesses_replayed": witness_log,
-        "ulps_allowed": dict(K, pow_si="i+1 (i>=0), 2|i|+1 (i<0)", cpow_si="10|i|+10", add="1 if |e1-e2|<=53 else 2 (0 with a zero operand)",
+        "ulps_allowed": dict(K, pow_si="i+1 (i>=0), 2|i|+1 (i<0)", cpow_si="ceil(4.36 (i+1)) (i>=0), ceil(10.37 (|i|+1)) (i<0)", add="1 if |e1-e2|<=53 else 2 (0 with a zero operand)",
                              sub="1 if |e1-e2|<=53 else 2 (0 with a zero operand)", **{k + "^2": v for k, v in K2.items()}),
         "constants_proved_in_coq": PROVED,
         "trusted_base": [
